@@ -216,6 +216,10 @@ def method_set(tier):
     # an out-struct as the payload of a Result / Option (it is a sized payload like any other struct)
     outst = next(s_ for s_ in structs if s_.out)
     rshapes += [A.Result(outst, A.Prim("u8")), A.Result(outst, A.Unit()), A.NullableRet(outst), A.Result(A.Prim("u8"), outst), A.Result(A.Unit(), outst)]
+    # an Option of a non-pointer INSIDE a Result arm is a DiplomatOption on the wire, whichever way it is spelled
+    for sp in ("std", "diplomat"):
+        rshapes += [A.Result(A.Opt(A.Prim("u8"), sp), A.Unit()), A.Result(A.Opt(A.EN, sp), A.Prim("u8")), A.Result(A.Prim("u8"), A.Opt(A.Prim("u16"), sp)),
+                    A.Result(A.Opt(A.ST, sp), A.Unit())]
     for t in rshapes:
         add("R", [], t)
     # a parameter and a return value together (register / sret interplay)
